@@ -479,3 +479,74 @@ def gen_single_random(seed, engine, tier="quick"):
         call["pid"] = rng.randrange(3)
     h.update({"engine": engine, "setup": setup, "call": call, "state": "random", "callname": name})
     return h
+
+
+# ------------------------------------------------------------------------------------------
+# CONC: systematic pair sweep (every unordered pair of the menu x every start state)
+# ------------------------------------------------------------------------------------------
+
+def conc_obj_menu():
+    return [
+        _st(0, 0), _st(1, 0), _st(2, 0), _st(1, 1), _st(None, 0),
+        {"op": "tag", "pid": 1, "cid": ["c", 0]}, {"op": "tag", "pid": 2, "cid": ["c", 0]},
+        {"op": "tag", "pid": 0, "cid": ["x", 0]},
+        {"op": "delete", "pid": 0}, {"op": "delete", "pid": 1},
+        {"op": "div", "c": 0, "ckalgo": "sha256", "ck": "wrong", "size": "ok"},
+        {"op": "div", "c": 0, "ckalgo": "sha224", "ck": "ok", "size": "ok"},
+    ]
+
+
+def conc_obj_states():
+    return [
+        [], [_st(0, 0)], [_st(0, 0), _st(1, 0)], [_st(None, 0)], [{"op": "tag", "pid": 0, "cid": ["x", 0]}],
+        [_st(0, 0), _st(1, 1)], [{"op": "tag", "pid": 0, "cid": ["c", 0]}],
+    ]
+
+
+def conc_meta_menu():
+    return [
+        {"op": "smeta", "pid": 0, "fmt": None, "m": 0}, {"op": "smeta", "pid": 0, "fmt": None, "m": 1},
+        {"op": "smeta", "pid": 0, "fmt": 1, "m": 2},
+        {"op": "rmeta", "pid": 0, "fmt": None}, {"op": "rmeta", "pid": 0, "fmt": 1},
+        {"op": "dmeta", "pid": 0, "fmt": 0}, {"op": "dmeta", "pid": 0, "fmt": 1}, {"op": "dmeta", "pid": 0, "fmt": None},
+        {"op": "delete", "pid": 0},
+    ]
+
+
+def conc_meta_states():
+    d0 = {"op": "smeta", "pid": 0, "fmt": None, "m": 0}
+    d1 = {"op": "smeta", "pid": 0, "fmt": 1, "m": 1}
+    return [[], [d0], [d0, d1], [_st(0, 0)], [_st(0, 0), d0, d1]]
+
+
+def conc_pair_shapes(family):
+    menu = conc_obj_menu() if family == "obj" else conc_meta_menu()
+    states = conc_obj_states() if family == "obj" else conc_meta_states()
+    out = []
+    for si, st in enumerate(states):
+        for i in range(len(menu)):
+            for j in range(i, len(menu)):
+                out.append((si, st, i, j, menu[i], menu[j]))
+    return out
+
+
+def gen_conc_pair(seed, family, shape, mp=False):
+    si, st, i, j, a, b = shape
+    rng = rng_for(seed)
+    cfg = gen_cfg(rng, simple=True)
+    knobs = gen_conc_knobs(rng, mp=mp)
+    knobs["blksize"] = None
+    if family == "obj":
+        pids = ["p0", "p1", "p2"]
+        formats = [cfg["store_metadata_namespace"]]
+        contents = [[5, 3], [9, 7]]
+        mcontents = [[5, 1], [9, 2]]
+    else:
+        pids = ["p0"]
+        formats = [cfg["store_metadata_namespace"], "fmt2"]
+        contents = [[7, 3], [12, 5]]
+        mcontents = [[5, 1], [40, 2], [4500, 3]]
+    return {"seed": seed, "engine": "conc", "family": family, "cfg": cfg, "knobs": knobs, "pids": pids,
+            "formats": formats, "contents": contents, "mcontents": mcontents, "setup": [dict(o) for o in st],
+            "tasks": [[dict(a)], [dict(b)]], "stagger": [0, rng.choice([0, 0, 3, 15, 40])],
+            "shape": [si, i, j]}
